@@ -1400,7 +1400,13 @@ def check_verify(case):
                     revoked.add(ob[1])
         elif kind == "uncleaned":
             # digest of the play *with* its dynamic parts: must not match
-            full = pv.hash_play(pv.serialize_play(qa))
+            try:
+                full = pv.hash_play(pv.serialize_play(qa))
+            except UnicodeEncodeError:
+                # a lone surrogate inside an *excluded* element: the cleaned play has a digest, the uncleaned one
+                # has none (nothing to put on the list) - harness-side computation, not a verdict on the code
+                labels.append("uncleaned-digest-unencodable")
+                continue
             entries.append(("full %d" % i, full.hex()))
             revoked.add(full)
         elif kind == "name-is-hash":
@@ -1654,5 +1660,7 @@ REGRESSIONS = [
     Reg("anchored-boolean-is-int", "digest", dict(KNOWN_CANDIDATES[0][1]), expect="known", finding="C18-anchored-bool"),
     Reg("tagged-scalar-printed-raw", "digest", dict(KNOWN_CANDIDATES[1][1]), expect="known", finding="C18-custom-tag"),
     Reg("tag-not-covered", "digest", dict(KNOWN_CANDIDATES[2][1]), expect="known", finding="C18-custom-tag"),
+    # false alarm corrected (found at VERIF_SEED=11): lone surrogate inside an excluded element + "uncleaned" revocation entry
+    Reg("verify-surrogate-in-excluded-element", "verify", {"a": {"m": [[{"q": "p", "s": "name"}, {"q": "d", "s": "0"}], [{"q": "p", "s": "hosts"}, {"m": [[{"q": "d", "s": "0"}, {"l": [{"q": "d", "s": "\ud83d"}]}]]}], [{"q": "p", "s": "tasks"}, {"l": []}], [{"q": "p", "s": "vars"}, {"m": [[{"q": "p", "s": "insights_signature"}, {"q": "d", "s": "AA=="}], [{"q": "p", "s": "insights_signature_exclude"}, {"q": "d", "s": "/vars/insights_signature,/hosts"}]]}]]}, "b": None, "mode": "py", "rev_hex": "lower", "rev_names": "unique", "revoked": ["uncleaned"]}),
     Reg("deeper-request", "exclusion", {"mode": "py", "a": M((S("vars"), M((S(EXCL), S("/vars/a/b")), (S("a"), M((S("b"), I(1)))))))}),
 ]
